@@ -247,6 +247,47 @@ def keepTaxa (K : Nat → Bool) : Acc := fun _ x => match x with
   | none => false
   | some k => K k
 
+/-! ## an independent description of the `strike` pass (any tree, taxa on internal nodes included) -/
+mutual
+/-- every node at or below this one carries a taxon in `P` -/
+def allIn (P : Nat → Bool) : T → Bool
+  | .node _ x _ _ cs => inP P x && allInL P cs
+def allInL (P : Nat → Bool) : List T → Bool
+  | [] => true
+  | c :: cs => allIn P c && allInL P cs
+end
+
+mutual
+/-- remove every node that carries a taxon in `P`, with everything below it -/
+def chop (P : Nat → Bool) : T → Option T
+  | .node i x l s cs => if inP P x then none else some (.node i x l s (chopL P cs))
+def chopL (P : Nat → Bool) : List T → List T
+  | [] => []
+  | c :: cs => match chop P c with
+    | some r => r :: chopL P cs
+    | none => chopL P cs
+end
+
+mutual
+/-- default flags of `prune_taxa` (leaf flag on, internal flag off): a node goes exactly when ALL of its subtree, itself
+    included, carries pruned taxa; decided top-down -/
+def sweep (P : Nat → Bool) : T → Option T
+  | .node i x l s cs => if inP P x && allInL P cs then none else some (.node i x l s (sweepL P cs))
+def sweepL (P : Nat → Bool) : List T → List T
+  | [] => []
+  | c :: cs => match sweep P c with
+    | some r => r :: sweepL P cs
+    | none => sweepL P cs
+end
+
+/-- the specification of the first pass of `prune_taxa` for the flag settings that have one -/
+def strikeSpec (P : Nat → Bool) (fl fi : Bool) (t : T) : Option (Option T) :=
+  match fl, fi with
+  | true, true => some (chop P t)
+  | true, false => some (sweep P t)
+  | false, false => some (some t)
+  | false, true => none
+
 /-! ## the by-label entry points: label → taxa resolution through the namespace -/
 /-- a namespace as the by-label entry points see it: its members in namespace order, each with accession bit and label -/
 abbrev Ns := List (Nat × String)
